@@ -48,6 +48,23 @@ CHECKS["C12"] = dict(
     note="Values outside the word alphabet are not tried; the predicate only compares words with each other and with the buffer length, and the alphabet has representatives on both sides of each comparison.",
 )
 
+CHECKS["C14"] = dict(
+    engine="vtime_mc",
+    category="exploration",
+    design="DESIGN.md section 4, C14",
+    technique="bounded-exhaustive enumeration of (local time, base time, voucher) triples in dense blocks around every edge and wrap-around boundary on the real VouchedTime, window rule in i128 as oracle",
+    text="For ~50 landmark base times (0, the window constants, calendar limits, i64/u64-nanosecond overflow points, 2^32, 2^63, the top of the u64 range) every millisecond of [base-60000, base+3100] and of [epoch, epoch+3000] is tried as local time; every one of the 62 892 base times at the top of the u64 range is combined with every local time within 3 s of the epoch (the only pairs that can wrap into the window); 24 special local times (calendar limits, epoch-1, overflow points) are combined with every base in their window; genuine, off-by-one, foreign-parameter and bit-flipped vouchers are tried at the edge differences. new/check/check_or_die/get_local_time must agree with the rule and never panic; now() is driven with 13 provider offsets.",
+    note="Local times at millisecond granularity (sub-millisecond parts are truncated toward zero by the code); the full 2^64 x 2^64 space is covered by piecewise linearity, not enumeration.",
+)
+CHECKS["C17"] = dict(
+    engine="readn_mc",
+    category="fault_enumeration",
+    design="DESIGN.md section 4, C17",
+    technique="exhaustive enumeration of reader fault scripts (short reads, EINTR, EOF, hard errors) up to a length bound x counts x attempt limits x arena states x entry points on the real read_n, 15-line specification as oracle",
+    text="All reader scripts over {deliver all, deliver 1, deliver 2, Interrupted, EOF, Other error, WouldBlock error} up to length 6 (quick) / 7 (thorough), then EOF forever, x count in {0,1,2,3,5} x max_attempts in {1,2,3,5,MAX} x five arena states (no cache, fresh chunk, remaining == count, count-1, 0) are run through ByteArena::read_n, Encoder/Decoder::read_n, encode_read and decode_read. Number and sizes of reader calls, returned bytes or error kind, hand-back of the unread tail, liveness of the returned slice, absence of leaks and the codec output after finish are compared with a specification written from the statement.",
+    note="Readers that violate Read's contract are out of scope; codec output is compared with the reference encoder in mc_core::refcodec.",
+)
+
 ALL = ["C%02d" % i for i in range(1, 21)]
 
 NOT_YET = "check not built yet (work in progress; see DESIGN.md section 4 for the planned bounded-exhaustive formulation)"
